@@ -336,8 +336,17 @@ def replay(prop, path):
     case = body.get("case") or ""
     # narrow the run to the recorded case where the engine supports it
     parts = case.split(":")
-    if parts and parts[0] == "walk" and len(parts) >= 3 and "--only" not in argv:
-        argv += ["--only", parts[2]]
+    if "--only" not in argv:
+        if parts and parts[0] == "walk" and len(parts) >= 3:
+            argv += ["--only", parts[2]]
+        elif parts and parts[0] == "exh" and len(parts) >= 4 and parts[3].isdigit():
+            argv += ["--only", parts[3]]  # enumerate up to and including that history
+        elif parts and parts[0] in ("conc", "rd", "wr") and len(parts) >= 3 and parts[2].isdigit():
+            argv += ["--only", parts[2]]
+        elif parts and parts[0] == "flt" and len(parts) >= 3 and parts[2].isdigit():
+            argv += ["--only", parts[2]]
+        elif parts and parts[0] == "pat" and len(parts) >= 2 and parts[1].isdigit():
+            argv += ["--only", parts[1]]
     j = Job("replay", argv, env=body.get("env"), timeout=1800, cwd=body.get("cwd"), kind=body.get("kind", "native"), build=body.get("build"), crash="violation")
     run_job(j)
     a = Agg(prop)
